@@ -155,6 +155,10 @@ package throttle
 // found nothing - a limiter inserted by another processor between RUnlock and Lock
 // must not be overwritten (its counters would start from zero again).
 
+// A limiter that is found is marked with the current generation on every access (that
+// is what keeps maintenance from expiring a limiter that is in constant use, and from
+// handing its key a second budget).
+
 //@ func (*limitersMap).getOrAdd
 //@   ghost wl bool = false
 //@   ghost wabsent bool = false
@@ -163,6 +167,7 @@ package throttle
 //@     set wl := true
 //@   callee maplookup:lims(k) (v, ok)
 //@     set wabsent := wl && !ok
+//@     set nhit := nhit + ite(ok, 1, 0)
 //@   callee mapupdate:lims(k, v)
 //@     requires wl && wabsent
 //@   callee newLimiter(k, o, r) (lim)
@@ -170,8 +175,13 @@ package throttle
 //@     pure
 //@   callee newLimiterWithGen(lim, gen) (r)
 //@     pure
+//@   ghost nst int = 0
+//@   ghost nhit int = 0
+//@   ensures nhit >= 1 ==> nst == 1
 //@   callee Store(v)
+//@     requires v == l.curGen
 //@     pure
+//@     set nst := nst + 1
 //@   callee getLimitCfg() (c)
 //@     pure
 
